@@ -64,9 +64,13 @@ func (o *Obligation) smt(seed int, withModel bool) string {
 		m := map[string]bool{}
 		symbolsOf(a, m)
 		x := &ax{text: a}
-		for k := range m {
-			if _, ok := declared[k]; ok {
-				x.syms = append(x.syms, k)
+		if keys, ok := o.AxiomKeys[a]; ok {
+			x.syms = keys
+		} else {
+			for k := range m {
+				if _, ok := declared[k]; ok {
+					x.syms = append(x.syms, k)
+				}
 			}
 		}
 		axs[i] = x
